@@ -16,7 +16,9 @@ A3 == {"a1", "a2", "a3"}
 P3 == Pairs(A3)
 (* distillation functions s(x) = a x + b as rationals; 4 = the default (-0.15, 0.3), not dyadic *)
 DistFuns == << [a |-> RZero, b |-> <<1, 8>>], [a |-> <<-1, 8>>, b |-> <<1, 4>>], [a |-> RZero, b |-> RZero],
-               [a |-> <<-3, 20>>, b |-> <<3, 10>>] >>
+               [a |-> <<-3, 20>>, b |-> <<3, 10>>],
+               (* 5: steep slope - the per-entry threshold s(M[a][b]) differs from s(cut level) by whole grid steps *)
+               [a |-> <<-1, 2>>, b |-> <<1, 2>>] >>
 
 Instances == [m : [P3 -> Grid], f : Funs]
 MOf(i) == [a \in A3 |-> [b \in A3 |-> IF a = b THEN ROne ELSE RNorm(i.m[<<a, b>>], 4)]]
